@@ -90,10 +90,13 @@ inductive Step : State → Label → State → Prop
         queue := s.queue ++ [(b, decide (1 ≤ s.phase))]
         accepted := s.accepted ++ b
         early := if s.phase = 0 then s.early ++ b else s.early
-        stored := if s.cfg.persistent then s.stored ++ b else s.stored }
+        stored := if s.cfg.persistent then s.stored ++ b else s.stored
+        reqs := s.reqs ++ [b]
+        qsize := s.qsize + reqSize s.cfg b }
   | read (s : State) (i : Nat) (b : Batch) (late : Bool) (rest : List (Batch × Bool))
       (hc : s.cons[i]? = some .idle) (hq : s.queue = (b, late) :: rest) (hg : ¬(s.cfg.persistent = true ∧ 2 ≤ s.phase)) :
-      Step s (.read i) { s with queue := rest, cons := s.cons.set i (.holding b) }
+      Step s (.read i) { s with queue := rest, cons := s.cons.set i (.holding b)
+                                qsize := if s.cfg.persistent && rest.isEmpty then 0 else s.qsize }
   | exit (s : State) (i : Nat) (hc : s.cons[i]? = some .idle) (hp : 2 ≤ s.phase) (hq : s.cfg.persistent = true ∨ s.queue = []) :
       Step s (.exit i) { s with cons := s.cons.set i .exited }
   | sendSync (s : State) (i : Nat) (b : Batch) (hc : s.cons[i]? = some (.holding b)) (hb : s.cfg.batching = false) :
@@ -114,7 +117,8 @@ inductive Step : State → Label → State → Prop
       Step s (.expStart f) { s with flights := s.flights.set f { fl with st := .calling, attempts := fl.attempts + 1 } }
   | expEndDrop (s : State) (f : Nat) (fl : Flight) (o : Outcome) (hfl : s.flights[f]? = some fl) (hs : fl.st = .calling) :
       Step s (.expEnd f o .drop) (finalise s f fl false (failOf o))
-  | expEndAgain (s : State) (f : Nat) (fl : Flight) (hfl : s.flights[f]? = some fl) (hs : fl.st = .calling) (hr : s.cfg.retry = true) :
+  | expEndAgain (s : State) (f : Nat) (fl : Flight) (hfl : s.flights[f]? = some fl) (hs : fl.st = .calling) (hr : s.cfg.retry = true)
+      (hp0 : s.phase = 0) :
       Step s (.expEnd f .trans .again) { s with flights := s.flights.set f { fl with st := .backoff, failures := fl.failures + 1 } }
   | expEndKeep (s : State) (f : Nat) (fl : Flight) (hfl : s.flights[f]? = some fl) (hs : fl.st = .calling) (hr : s.cfg.retry = true)
       (hp : 1 ≤ s.phase) : Step s (.expEnd f .trans .keep) (finalise s f fl true 1)
@@ -219,7 +223,10 @@ theorem fire_step {s s' : State} {l : Label} (hf : fire s l = some s') : Step s 
         · simp only [Option.some.injEq] at hf; subst hf; exact .expEndDrop s f fl .perm hfl hs
         · simp only [Option.some.injEq] at hf; subst hf; exact .expEndDrop s f fl .trans hfl hs
         · split at hf
-          · next hr => simp only [Option.some.injEq] at hf; subst hf; exact .expEndAgain s f fl hfl hs hr
+          · next hr =>
+            simp only [Option.some.injEq] at hf; subst hf
+            simp only [Bool.and_eq_true, decide_eq_true_eq] at hr
+            exact .expEndAgain s f fl hfl hs hr.1 hr.2
           · simp at hf
         · split at hf
           · next hr =>
@@ -330,7 +337,7 @@ theorem conserved_step {s s' : State} {l : Label} (h : Conserved s) (hs : Step s
     have := flightItems_set s.flights f fl { fl with st := .calling, attempts := fl.attempts + 1 } hfl rfl
     simp only [places, this] at hx ⊢; exact hx
   | expEndDrop f fl o hfl hs => rw [finalise_places _ _ _ _ _ hfl]; exact hx
-  | expEndAgain f fl hfl hs hr =>
+  | expEndAgain f fl hfl hs hr hp0 =>
     have := flightItems_set s.flights f fl { fl with st := .backoff, failures := fl.failures + 1 } hfl rfl
     simp only [places, this] at hx ⊢; exact hx
   | expEndKeep f fl hfl hs hr hp => rw [finalise_places _ _ _ _ _ hfl]; exact hx
@@ -382,7 +389,7 @@ theorem earlyConserved_step {s s' : State} {l : Label} (h : EarlyConserved s) (h
     have := flightItems_set s.flights f fl { fl with st := .calling, attempts := fl.attempts + 1 } hfl rfl
     simp only [placesEarly, this] at hx ⊢; exact hx
   | expEndDrop f fl o hfl hs => rw [finalise_placesEarly _ _ _ _ _ hfl]; exact hx
-  | expEndAgain f fl hfl hs hr =>
+  | expEndAgain f fl hfl hs hr hp0 =>
     have := flightItems_set s.flights f fl { fl with st := .backoff, failures := fl.failures + 1 } hfl rfl
     simp only [placesEarly, this] at hx ⊢; exact hx
   | expEndKeep f fl hfl hs hr hp => rw [finalise_placesEarly _ _ _ _ _ hfl]; exact hx
@@ -439,7 +446,7 @@ theorem flightsOK_step {s s' : State} {l : Label} (h : FlightsOK s) (hs : Step s
     apply flightsOK_set h
     simp only [FlightOK, hs] at this ⊢
     cases o <;> simp only [failOf] <;> omega
-  | expEndAgain f fl hfl hs hr =>
+  | expEndAgain f fl hfl hs hr hp0 =>
     have := h fl (mem_of_getElem? hfl)
     apply flightsOK_set h
     simp only [FlightOK, hs] at this ⊢; omega
@@ -689,7 +696,7 @@ theorem wf_step {s s' : State} {l : Label} (w : WF s) (hs : Step s l s') : WF s'
   | expStart f fl hfl hs =>
     exact wf_flight_set w hfl (by cases hs with | inl h => simp [h] | inr h => simp [h]) rfl
   | expEndDrop f fl o hfl hs => exact wf_finalise w hfl (by simp [hs])
-  | expEndAgain f fl hfl hs hr => exact wf_flight_set w hfl (by simp [hs]) rfl
+  | expEndAgain f fl hfl hs hr hp0 => exact wf_flight_set w hfl (by simp [hs]) rfl
   | expEndKeep f fl hfl hs hr hp => exact wf_finalise w hfl (by simp [hs])
   | giveUp f fl kept hfl hs hk => exact wf_finalise w hfl (by simp [hs])
   | shutRetry hp =>
@@ -772,7 +779,7 @@ theorem memLate_step {s s' : State} {l : Label} (h : MemLate s) (hs : Step s l s
   | timerExit ht hp => exact h
   | expStart f fl hfl hs => exact h
   | expEndDrop f fl o hfl hs => intro hm he; exact h hm (exited_of_release he)
-  | expEndAgain f fl hfl hs hr => exact h
+  | expEndAgain f fl hfl hs hr hp0 => exact h
   | expEndKeep f fl hfl hs hr hp => intro hm he; exact h hm (exited_of_release he)
   | giveUp f fl kept hfl hs hk => intro hm he; exact h hm (exited_of_release he)
   | shutRetry hp => intro hm he; have := h hm he; exact ⟨by omega, this.2⟩
@@ -848,7 +855,7 @@ theorem persistKept_step {s s' : State} {l : Label} (h : PersistKept s) (hs : St
   | timerExit ht hp => exact h
   | expStart f fl hfl hs => exact persistKept_flight_set h hfl (by cases hs with | inl h => simp [h] | inr h => simp [h])
   | expEndDrop f fl o hfl hs => exact persistKept_finalise h hfl (by simp [hs])
-  | expEndAgain f fl hfl hs hr => exact persistKept_flight_set h hfl (by simp [hs])
+  | expEndAgain f fl hfl hs hr hp0 => exact persistKept_flight_set h hfl (by simp [hs])
   | expEndKeep f fl hfl hs hr hp => exact persistKept_finalise h hfl (by simp [hs])
   | giveUp f fl kept hfl hs hk => exact persistKept_finalise h hfl (by simp [hs])
   | shutRetry hp => exact h
